@@ -187,6 +187,10 @@ class Session:
     def stopped_jobs(self):
         return [g for g in self.jobs if g != self.fg and self.live_members(g) and all(st["state"] == "T" for _, st in self.live_members(g))]
 
+    def partly_stopped_jobs(self):
+        """jobs with at least one stopped live member (`bg` must resume the whole pipeline)"""
+        return [g for g in self.jobs if g != self.fg and self.live_members(g) and any(st["state"] == "T" for _, st in self.live_members(g))]
+
     def running_bg_jobs(self):
         return [g for g in self.jobs if g != self.fg and self.live_members(g) and not all(st["state"] == "T" for _, st in self.live_members(g))]
 
@@ -355,8 +359,17 @@ class Session:
                 self.launch(bg=True)
             elif r < 0.52:
                 self.jobs_cmd()
-            elif r < 0.62 and self.stopped_jobs():
-                self.do_bg(self.rng.choice(self.stopped_jobs()))
+            elif r < 0.62 and self.partly_stopped_jobs():
+                self.do_bg(self.rng.choice(self.partly_stopped_jobs()))
+            elif r < 0.66 and [g for g in self.running_bg_jobs() if len(self.live_members(g)) > 1]:
+                # one member of a running pipeline is stopped from outside; `bg` must resume the whole pipeline
+                gid = self.rng.choice([g for g in self.running_bg_jobs() if len(self.live_members(g)) > 1])
+                self.signal_members(gid, signal.SIGSTOP, False)
+                if self.rng.random() < 0.6:
+                    self.plain_line("empty")
+                if self.rng.random() < 0.3:
+                    self.jobs_cmd()
+                self.do_bg(gid)
             elif r < 0.72 and live:
                 self.do_fg(self.rng.choice(live))
             elif r < 0.84 and live:
